@@ -177,6 +177,17 @@ theorem outerLoop_eq_passes (copyBuf : Bool) (bs : Option Nat) (hbs : bs ≠ som
       rw [ih _ _ _ _ (by omega), hbl]
       simp [passes, List.append_assoc]
 
+/-! ## unfolding `fillBuf` -/
+
+theorem fillBuf_cons_stop (i : Nat) (ops : Ops σ α) (s s' : σ) (x : α) (xs : List α)
+    (h : ops.fill s x = (s', true)) : fillBuf i ops s (x :: xs) = ([.fill i x true], s', true) := by
+  simp [fillBuf, h]
+
+theorem fillBuf_cons_ok (i : Nat) (ops : Ops σ α) (s s' : σ) (x : α) (xs : List α)
+    (h : ops.fill s x = (s', false)) :
+    fillBuf i ops s (x :: xs) = (.fill i x false :: (fillBuf i ops s' xs).1, (fillBuf i ops s' xs).2) := by
+  simp [fillBuf, h]
+
 /-! ## events carry the id of their branch; a branch keeps its id, kind and methods -/
 
 theorem fillBuf_branch (i : Nat) (ops : Ops σ α) :
@@ -237,10 +248,323 @@ theorem stepBranch_some (buf : List α) (b b' : Branch σ α) (h : (stepBranch b
   · simp at h
   · split at h
     · simp at h
-    · simp only [Option.some.injEq] at h; subst h; simp [hk]
+    · simp only [Option.some.injEq] at h; subst h; simp
   · split at h
     · simp at h
-    · simp only [Option.some.injEq] at h; subst h; simp [hk]
-  · simp only [Option.some.injEq] at h; subst h; simp [hk]
+    · simp only [Option.some.injEq] at h; subst h; simp
+  · simp only [Option.some.injEq] at h; subst h; simp
+
+/-! ## folds as `flatMap` / `filterMap` -/
+
+theorem flatMap_congr' {β γ : Type} {l : List β} {f g : β → List γ} (h : ∀ b ∈ l, f b = g b) :
+    l.flatMap f = l.flatMap g := by
+  induction l with
+  | nil => rfl
+  | cons b r ih =>
+    simp only [List.flatMap_cons]
+    rw [h b (List.mem_cons_self ..), ih (fun c hc => h c (List.mem_cons_of_mem _ hc))]
+
+theorem filterMap_eq_map' {β γ : Type} {l : List β} {f : β → Option γ} {g : β → γ}
+    (h : ∀ b ∈ l, f b = some (g b)) : l.filterMap f = l.map g := by
+  induction l with
+  | nil => rfl
+  | cons b r ih =>
+    rw [List.filterMap_cons, h b (List.mem_cons_self ..), ih (fun c hc => h c (List.mem_cons_of_mem _ hc))]
+    rfl
+
+
+theorem foldB_fst {β ε : Type} (step : β → List ε × Option β) (l : List β) :
+    (foldB step l).1 = l.flatMap (fun b => (step b).1) := by
+  induction l with
+  | nil => rfl
+  | cons b r ih => simp [foldB, ih]
+
+theorem foldB_snd {β ε : Type} (step : β → List ε × Option β) (l : List β) :
+    (foldB step l).2 = l.filterMap (fun b => (step b).2) := by
+  induction l with
+  | nil => rfl
+  | cons b r ih =>
+    simp only [foldB, ih, List.filterMap_cons]
+    cases (step b).2 <;> rfl
+
+theorem flatMap_filterMap_id {β ε : Type} (f : β → List ε) (os : List (Option β)) :
+    (os.filterMap id).flatMap f =
+      os.flatMap (fun o => match o with
+        | none => []
+        | some b => f b) := by
+  induction os with
+  | nil => rfl
+  | cons o r ih => cases o <;> simp [ih]
+
+theorem filterMap_filterMap_id {β γ : Type} (f : β → Option γ) (os : List (Option β)) :
+    (os.filterMap id).filterMap f =
+      (os.map (fun o => match o with
+        | none => none
+        | some b => f b)).filterMap id := by
+  induction os with
+  | nil => rfl
+  | cons o r ih =>
+    cases o with
+    | none => simp [ih]
+    | some b =>
+      simp only [List.filterMap_cons, id, List.map_cons, ih]
+
+/-- one pass over the active branches, in terms of possibly-dropped branches -/
+theorem pass_opt (blk : List α) (os : List (Option (Branch σ α))) :
+    (foldB (stepBranch blk) (os.filterMap id)).1 = os.flatMap (fun o => (stepO blk o).1) ∧
+    (foldB (stepBranch blk) (os.filterMap id)).2 =
+      (os.map (fun o => (stepO blk o).2)).filterMap id := by
+  rw [foldB_fst, foldB_snd, flatMap_filterMap_id, filterMap_filterMap_id]
+  constructor
+  · congr 1
+    funext o
+    cases o <;> rfl
+  · congr 2
+    funext o
+    cases o <;> rfl
+
+/-- the two nested folds are the matrix of per-branch lives -/
+theorem passes_matrix (bl : List (List α)) :
+    ∀ (os : List (Option (Branch σ α))),
+      (passes bl (os.filterMap id)).1 =
+        (List.range bl.length).flatMap (fun k => os.flatMap (fun o => ((life o bl).1)[k]?.getD [])) ∧
+      (passes bl (os.filterMap id)).2 = (os.map (fun o => (life o bl).2)).filterMap id := by
+  induction bl with
+  | nil =>
+    intro os
+    simp [passes, life]
+  | cons blk rest ih =>
+    intro os
+    obtain ⟨h1, h2⟩ := pass_opt blk os
+    obtain ⟨i1, i2⟩ := ih (os.map (fun o => (stepO blk o).2))
+    simp only [passes, h1, h2, i1, i2, List.length_cons, List.range_succ_eq_map, List.flatMap_cons,
+      List.flatMap_map, life, List.map_map]
+    constructor
+    · congr 1
+    · rfl
+
+/-! ## what is left of a branch -/
+
+theorem life_length (bl : List (List α)) : ∀ (o : Option (Branch σ α)), (life o bl).1.length = bl.length := by
+  induction bl with
+  | nil => intro o; rfl
+  | cons blk rest ih => intro o; simp [life, ih]
+
+theorem life_none (bl : List (List α)) :
+    life (none : Option (Branch σ α)) bl = (bl.map (fun _ => []), none) := by
+  induction bl with
+  | nil => rfl
+  | cons blk rest ih => simp [life, stepO, ih]
+
+/-- a branch that is still active after `bl` is the original object (same id, kind, methods);
+after at least one block it is not a Source -/
+theorem life_some (bl : List (List α)) :
+    ∀ (o : Option (Branch σ α)) (b' : Branch σ α), (life o bl).2 = some b' →
+      ∃ b, o = some b ∧ b'.id = b.id ∧ b'.kind = b.kind ∧ b'.ops = b.ops ∧
+        (bl ≠ [] → b.kind ≠ .source) := by
+  induction bl with
+  | nil =>
+    intro o b' h
+    exact ⟨b', by simpa [life] using h, rfl, rfl, rfl, fun h => absurd rfl h⟩
+  | cons blk rest ih =>
+    intro o b' h
+    simp only [life] at h
+    obtain ⟨b1, h1, hid, hk, hops, _⟩ := ih _ _ h
+    cases o with
+    | none => simp [stepO] at h1
+    | some b =>
+      simp only [stepO] at h1
+      obtain ⟨gid, gk, gops, gns⟩ := stepBranch_some blk b b1 h1
+      exact ⟨b, rfl, by rw [hid, gid], by rw [hk, gk], by rw [hops, gops], fun _ => gns⟩
+
+theorem life_branch (bl : List (List α)) :
+    ∀ (b : Branch σ α), ∀ l ∈ (life (some b) bl).1, ∀ e ∈ l, e.branch = some b.id := by
+  induction bl with
+  | nil => intro b l hl; simp [life] at hl
+  | cons blk rest ih =>
+    intro b l hl e he
+    simp only [life, List.mem_cons] at hl
+    rcases hl with rfl | hl
+    · exact stepBranch_branch blk b e he
+    · simp only [stepO] at hl
+      cases hs : (stepBranch blk b).2 with
+      | none =>
+        rw [hs, life_none] at hl
+        simp only [List.mem_map] at hl
+        obtain ⟨_, _, rfl⟩ := hl
+        simp at he
+      | some b1 =>
+        rw [hs] at hl
+        have := ih b1 l hl e he
+        rw [this, (stepBranch_some blk b b1 hs).1]
+
+theorem finalOne_branch (fwe : Bool) (b : Branch σ α) : ∀ e ∈ finalOne fwe b, e.branch = some b.id := by
+  intro e he
+  unfold finalOne at he
+  cases hk : b.kind <;> simp only [hk] at he
+  · simp only [List.mem_cons] at he
+    rcases he with rfl | he
+    · rfl
+    · exact outs_branch _ _ e he
+  · simp only [List.mem_cons] at he
+    rcases he with rfl | he
+    · rfl
+    · exact outs_branch _ _ e he
+  · split at he
+    · simp only [List.mem_cons] at he
+      rcases he with rfl | he
+      · rfl
+      · exact outs_branch _ _ e he
+    · simp at he
+  · split at he
+    · simp only [List.mem_cons] at he
+      rcases he with rfl | he
+      · rfl
+      · exact outs_branch _ _ e he
+    · simp at he
+
+theorem contribution_branch (b : Branch σ α) (bl : List (List α)) (k : Nat) :
+    ∀ e ∈ contribution b bl k, e.branch = some b.id := by
+  intro e he
+  unfold contribution at he
+  cases h : ((life (some b) bl).1)[k]? with
+  | none => simp [h] at he
+  | some l =>
+    simp only [h, Option.getD_some] at he
+    exact life_branch bl b l (List.mem_of_getElem? h) e he
+
+theorem finalContribution_branch (b : Branch σ α) (bl : List (List α)) :
+    ∀ e ∈ finalContribution b bl, e.branch = some b.id := by
+  intro e he
+  unfold finalContribution at he
+  cases h : (life (some b) bl).2 with
+  | none => simp [h, finalO] at he
+  | some b' =>
+    simp only [h, finalO] at he
+    obtain ⟨b0, h0, hid, _⟩ := life_some bl _ _ h
+    cases h0
+    rw [← hid]
+    exact finalOne_branch _ b' e he
+
+/-! ## the final pass -/
+
+theorem finalPass_eq_flatMap (fwe : Bool) (act : List (Branch σ α))
+    (h : fwe = true ∨ ∀ b ∈ act, b.kind ≠ .source) :
+    finalPass fwe act = act.flatMap (finalOne fwe) := by
+  induction act with
+  | nil => rfl
+  | cons b rest ih =>
+    have ih' := ih (by
+      rcases h with h | h
+      · exact Or.inl h
+      · exact Or.inr (fun c hc => h c (List.mem_cons_of_mem _ hc)))
+    cases hk : b.kind with
+    | source =>
+      rcases h with h | h
+      · subst h
+        simp [finalPass, finalOne, hk, ih']
+      · exact absurd hk (h b (List.mem_cons_self ..))
+    | fillCompute => simp [finalPass, finalOne, hk, ih']
+    | fillRequest => cases fwe <;> simp [finalPass, finalOne, hk, ih']
+    | sequence => cases fwe <;> simp [finalPass, finalOne, hk, ih']
+
+theorem flatMap_finalOne_filterMap (fwe : Bool) (bl : List (List α)) (brs : List (Branch σ α)) :
+    (brs.filterMap (id ∘ (fun o => (life o bl).2) ∘ some)).flatMap (finalOne fwe) =
+      brs.flatMap (fun b => finalO fwe (life (some b) bl).2) := by
+  induction brs with
+  | nil => rfl
+  | cons b r ih =>
+    simp only [List.filterMap_cons, Function.comp, List.flatMap_cons, id]
+    cases hl : (life (some b) bl).2 with
+    | none => simpa [finalO] using ih
+    | some b' => simpa [finalO] using ih
+
+/-- the nested folds followed by the final pass are the documented schedule -/
+theorem runSpec_eq_schedule (s : Split σ α) (flow : List α) : s.runSpec flow = s.schedule flow := by
+  unfold Split.runSpec Split.schedule
+  generalize blocks s.bufsize flow = bl
+  have hos : (s.branches.map some).filterMap id = s.branches := by
+    induction s.branches with
+    | nil => rfl
+    | cons b r ih => simp [ih]
+  obtain ⟨m1, m2⟩ := passes_matrix bl (s.branches.map some)
+  rw [hos] at m1 m2
+  simp only [m1, m2, List.flatMap_map, List.map_map]
+  congr 1
+  rw [finalPass_eq_flatMap]
+  · rw [List.filterMap_map]
+    exact flatMap_finalOne_filterMap _ bl s.branches
+  · cases bl with
+    | nil => exact Or.inl rfl
+    | cons blk rest =>
+      refine Or.inr (fun b' hb' => ?_)
+      simp only [List.mem_filterMap, List.mem_map, Function.comp, id] at hb'
+      obtain ⟨o, ⟨b, _, rfl⟩, ho⟩ := hb'
+      obtain ⟨b0, h0, _, hk, _, hns⟩ := life_some (blk :: rest) _ _ ho
+      cases h0
+      rw [hk]
+      exact hns (by simp)
+
+/-! ## projections -/
+
+theorem proj_append (i : Nat) (l₁ l₂ : List (Ev α)) : proj i (l₁ ++ l₂) = proj i l₁ ++ proj i l₂ := by
+  simp [proj]
+
+theorem proj_eq_self (i : Nat) (l : List (Ev α)) (h : ∀ e ∈ l, e.branch = some i) : proj i l = l := by
+  unfold proj
+  rw [List.filter_eq_self]
+  intro e he
+  simp [h e he]
+
+theorem proj_eq_nil (i j : Nat) (l : List (Ev α)) (h : ∀ e ∈ l, e.branch = some j) (hij : j ≠ i) :
+    proj i l = [] := by
+  unfold proj
+  rw [List.filter_eq_nil_iff]
+  intro e he
+  simp [h e he, hij]
+
+/-- among branches with distinct ids, the events of branch `b` in a branch-wise concatenation
+are exactly its own part -/
+theorem proj_flatMap_nodup (f : Branch σ α → List (Ev α)) :
+    ∀ (brs : List (Branch σ α)), (∀ b ∈ brs, ∀ e ∈ f b, e.branch = some b.id) →
+      (brs.map (·.id)).Nodup → ∀ b ∈ brs, proj b.id (brs.flatMap f) = f b := by
+  intro brs
+  induction brs with
+  | nil => intro _ _ b hb; simp at hb
+  | cons c rest ih =>
+    intro hf hnd b hb
+    simp only [List.map_cons, List.nodup_cons, List.mem_map, not_exists, not_and] at hnd
+    simp only [List.flatMap_cons, proj_append]
+    have hrest : ∀ b ∈ rest, ∀ e ∈ f b, e.branch = some b.id :=
+      fun b hb => hf b (List.mem_cons_of_mem _ hb)
+    rcases List.mem_cons.mp hb with rfl | hb'
+    · rw [proj_eq_self _ _ (hf b (List.mem_cons_self ..))]
+      have : proj b.id (rest.flatMap f) = [] := by
+        unfold proj
+        rw [List.filter_eq_nil_iff]
+        intro e he
+        simp only [List.mem_flatMap] at he
+        obtain ⟨d, hd, hed⟩ := he
+        have hne : d.id ≠ b.id := hnd.1 d hd
+        simp [hrest d hd e hed, hne]
+      simp [this]
+    · have hne : c.id ≠ b.id := fun h => hnd.1 b hb' h.symm
+      rw [proj_eq_nil _ _ _ (hf c (List.mem_cons_self ..)) hne, ih hrest hnd.2 b hb']
+      rfl
+
+theorem flatMap_range_getD {β : Type} (l : List (List β)) :
+    (List.range l.length).flatMap (fun k => l[k]?.getD []) = l.flatten := by
+  induction l with
+  | nil => rfl
+  | cons x r ih =>
+    simp only [List.length_cons, List.range_succ_eq_map, List.flatMap_cons, List.flatMap_map,
+      List.flatten_cons]
+    congr 1
+
+theorem proj_flatMap_range (i : Nat) (n : Nat) (f : Nat → List (Ev α)) :
+    proj i ((List.range n).flatMap f) = (List.range n).flatMap (fun k => proj i (f k)) := by
+  induction (List.range n) with
+  | nil => rfl
+  | cons k r ih => simp [proj_append, ih]
 
 end Lena.C03
